@@ -359,10 +359,11 @@ def rule_r3_r4(facts, rep):
     rep.floor(r3, "link-holding node kinds", n, 4)
     # children recursed through map_children
     key = f.def_ + "|recurses-children"
-    mc = [x for x in fb.walk(f.body) if x.get("k") == "mcall" and x["name"] == "map_children"]
-    rec = mc and any(y.get("k") == "mcall" and (fb.callee(y) or "").endswith("Tree::change_key") for y in fb.walk(mc[0]))
+    from .common import maps_every_child
+    mc = maps_every_child(ctx(f), f.body, "Tree::change_key")
+    rec = bool(mc)
     if rec:
-        rep.ok(r3, key, "children: map_children(|c| c.change_key(..))", loc(f, mc[0]))
+        rep.ok(r3, key, "every child is mapped through change_key(..)", loc(f, mc[0]))
     else:
         rep.violation(r3, key, "Tree::change_key does not recurse into all children", f.loc)
     g = facts.fn("Tree::map_children")
